@@ -48,6 +48,22 @@ def generate(rng, tier):
         for clause in ["interval", "limit"]:
             q = "map select count($line) from . group by $hostname %s %s logformat generickv" % (clause, num)
             cases.append({"payloads": [q.encode().hex(), b"cat: /etc/hostname regex:noop ".hex()], "wait_ms": 900})
+    # every log format the client can name, over files whose lines do not fit it (rows longer / shorter than a CSV header,
+    # pairs without '=', missing fields, empty lines, binary junk): the aggregation runs, the server must survive
+    import os as _os
+    fdir = _os.path.join(vf.scratch(), "c10files")
+    _os.makedirs(fdir, exist_ok=True)
+    contents = {"long_rows.csv": "name,color,num\nmary,blue, light,3\nbob,red,1,2,3,4,5\n", "short_rows.csv": "a,b,c\n1\n\n,,\n1,2\n",
+                "kv.log": "a=1|b=2\n=\n|||\na\n=x|y==z|\n\n", "junk.log": "\x00\xff\xac|\x1b[31m\n" + "x" * 5000 + "\n",
+                "mapr.log": "INFO|1002-071143|1|stats.go:56|8|13|7|0.21|471h0m21s|MAPREDUCE:STATS|currentConnections=16|lifetimeConnections=1\nINFO|short|MAPREDUCE:STATS\nMAPREDUCE:STATS|=|x\n"}
+    for name, text in contents.items():
+        with open(_os.path.join(fdir, name), "wb") as f:
+            f.write(text.encode("latin1"))
+    for fmt in ["csv", "generickv", "generic", "default", "mimecast", "nosuchformat"]:
+        for name in contents:
+            for sel in ["count($line)", "count(name),last(color),sum(num)", "avg(b),max(a),min(c),len(a)"]:
+                q = "map select %s from . group by $hostname logformat %s" % (sel, fmt)
+                cases.append({"payloads": [q.encode().hex(), ("cat: %s regex:noop " % _os.path.join(fdir, name)).encode().hex()], "wait_ms": 700})
     n = 900 if tier == "quick" else 20000
     for i in range(n):
         k = rng.random()
